@@ -111,6 +111,31 @@ def dump_lists_put_objects(c):
     return all(d[off:off + ln] == hx(c["objs"][p]) for p, (off, ln) in zip(c["perm"], c["dump_recs"]))
 
 
+def dump_diagnosis(c):
+    """for a dump that is not magic + one record per object put: what happened to each object"""
+    d = hx(c["dump"])
+    want = 4 + sum(4 + len(o) // 2 for o in c["objs"])
+    out = []
+    if len(d) != want:
+        out.append("dump has %d bytes, magic + one record per object put needs %d" % (len(d), want))
+    for i, oh in enumerate(c["objs"]):
+        o = hx(oh)
+        rec = len(o).to_bytes(4, "little") + o
+        if d.find(rec, 4) >= 0:
+            continue
+        # longest prefix of the record present after some occurrence of its size field + first bytes
+        at = d.find(rec[:36], 4)
+        if at < 0:
+            out.append("object %d (%d bytes): no record with its size field and first bytes in the dump" % (i, len(o)))
+            continue
+        k = 0
+        while at + k < len(d) and k < len(rec) and d[at + k] == rec[k]:
+            k += 1
+        out.append("object %d (%d bytes): size field at dump offset %d announces %d bytes, only the first %d bytes of the object follow"
+                   % (i, len(o), at, len(o), k - 4))
+    return out
+
+
 def splits_a_record(c):
     """does the chunking cut through a record (size field or body)? -> non-trivial case"""
     total = len(stream_hex(c)) // 2
@@ -167,8 +192,13 @@ def run(ctx):
 
     CH = 5 if ctx.tier == "quick" else 12
     jobs, offs = [], []
-    # size-class cases (long byte strings) get a coqc each and are started first
-    groups = [[i] for i, c in enumerate(cases) if c.get("big")]
+    # size-class cases (long byte strings): the very long ones (>= 600 kB) get a coqc each, the others share
+    # one; they are started first. Starting coqc and loading the model costs as much as a 64 KiB case.
+    big = [i for i, c in enumerate(cases) if c.get("big")]
+    huge = [i for i in big if len(stream_hex(cases[i])) // 2 >= 600000]
+    rest = [i for i in big if i not in huge]
+    groups = [[i] for i in huge] + ([rest] if ctx.tier == "quick" else [rest[k:k + 3] for k in range(0, len(rest), 3)])
+    groups = [g for g in groups if g]
     small = [i for i, c in enumerate(cases) if not c.get("big")]
     groups += [small[k:k + CH] for k in range(0, len(small), CH)]
     for grp in groups:
@@ -177,15 +207,15 @@ def run(ctx):
         lit = vlib.coq_list(chunk, case_literal)
         jobs.append(("cases", "From NV Require Import Shard.Dump Shard.DumpCheck.\nFrom Coq Require Import List NArith. Import ListNotations.\n"
                      "Definition cases : list case := %s.\n" % lit,
-                     {"dump": "dump_mismatches cases", "model": "model_mismatches cases", "ref": "ref_mismatches cases"}))
+                     {"all": "all_mismatches cases"}))  # 3i = dump, 3i+1 = model, 3i+2 = reference mismatch of case i
         offs.append(off)
     bad = {"dump": set(bad_dump_py), "model": set(), "ref": set()}
     for off, res in zip(offs, ctx.coq_eval_many(jobs)):
         if res is None:
             ctx.tie(False)
             return
-        for k2 in bad:
-            bad[k2] |= {off[i] for i in res[k2]}
+        for x in res["all"]:
+            bad[("dump", "model", "ref")[x % 3]].add(off[x // 3])
     ctx.tie(not bad["dump"])    # Shard.Dump bytes = model dump of exactly the stored objects
     ctx.tie(not bad["model"])   # Shard.Restore = model restore (all kinds of streams)
     ctx.tie(not bad["ref"])     # Shard.Restore = theorem right-hand sides (clean / body-damaged / bad magic)
@@ -201,7 +231,9 @@ def run(ctx):
                      "stream_len": len(stream_hex(c)) // 2},
             "impl": {"dump_count": c["dump_count"], "restored": c["count"], "failed": c["fail"],
                      "err_class": ["nil", "invalid magic", "EOF", "unexpected EOF", "other"][c["err"]], "objects_in_target": len(c["stored"])},
-            "expected": ("all %d dumped objects restored, fail 0, nil" % len(c["perm"])) if c["kind"] == 0 else "see model",
+            "expected": ("dump = magic + one record (uint32 LE length, bytes) per object put; all %d objects restored, fail 0, nil" % len(c["objs"])) if c["kind"] == 0
+                        else "dump = magic + one record (uint32 LE length, bytes) per object put; restore: see model",
+            "dump_diagnosis": dump_diagnosis(c) if i in bad["dump"] else [],
             "disagrees_with": [w for w, s in (("model dump", bad["dump"]), ("model restore", bad["model"]),
                                               ("reference (theorem right-hand side)", bad["ref"])) if i in s]})
     nontriv = {}
